@@ -3,7 +3,8 @@ Model of benchproc/internal/parse/filter.go (recursive-descent filter parser) an
 semantic rejections of benchproc.NewFilter.  Core Lean only.
 
 Every function takes fuel as its first argument and passes `fuel - 1` to each callee; the loops of
-`expr`, `andExpr` and of the value list are the `…Loop` functions.  `Proofs/C07.lean` shows that
+`expr`, `andExpr` and of the value list are the `…Loop` functions.  Exhausted fuel records the model-only
+error `Msg.fuel`;  `Proofs/C07.lean` shows that
 the fuel handed out by `parseFilter` is never exhausted (`parse_total`).
 -/
 import Model.Proc.Tok
@@ -41,7 +42,7 @@ def isValue (k : UInt8) : Bool := k == kW || k == kQ || k == kR
 /-- the `for` loop of the parenthesised value list in `match`; `rest` is positioned after "(" or
 after "OR". -/
 def listLoop (cx : Ctx) (off : Int) (key : Bytes) : Nat → List Filter → Bytes → ErrSt → PR
-  | 0, _, _, e => ⟨.nil, [], e⟩
+  | 0, _, rest, e => perr cx rest .fuel e
   | f + 1, terms, rest, e =>
     let v := next cx true rest e
     if !isValue v.tok.kind then perr cx v.cur .expectedValue v.err
@@ -60,11 +61,11 @@ def finish (o : Op) (terms : List Filter) : Filter :=
 mutual
 /-- `p.expr` -/
 def exprF (cx : Ctx) : Nat → Bytes → ErrSt → PR
-  | 0, _, e => ⟨.nil, [], e⟩
+  | 0, q, e => perr cx q .fuel e
   | f + 1, q, e => exprLoop cx f [] q e
 
 def exprLoop (cx : Ctx) : Nat → List Filter → Bytes → ErrSt → PR
-  | 0, _, _, e => ⟨.nil, [], e⟩
+  | 0, _, q, e => perr cx q .fuel e
   | f + 1, terms, q, e =>
     let a := andExprF cx f q e
     let terms := terms ++ [a.f]
@@ -74,13 +75,13 @@ def exprLoop (cx : Ctx) : Nat → List Filter → Bytes → ErrSt → PR
 
 /-- `p.andExpr` -/
 def andExprF (cx : Ctx) : Nat → Bytes → ErrSt → PR
-  | 0, _, e => ⟨.nil, [], e⟩
+  | 0, q, e => perr cx q .fuel e
   | f + 1, q, e =>
     let m := matchF cx f q e
     andLoop cx f [m.f] m.rest m.err
 
 def andLoop (cx : Ctx) : Nat → List Filter → Bytes → ErrSt → PR
-  | 0, _, _, e => ⟨.nil, [], e⟩
+  | 0, _, q, e => perr cx q .fuel e
   | f + 1, terms, q, e =>
     let op := next cx false q e
     let k := op.tok.kind
@@ -93,7 +94,7 @@ def andLoop (cx : Ctx) : Nat → List Filter → Bytes → ErrSt → PR
 
 /-- `p.match` -/
 def matchF (cx : Ctx) : Nat → Bytes → ErrSt → PR
-  | 0, _, e => ⟨.nil, [], e⟩
+  | 0, q, e => perr cx q .fuel e
   | f + 1, start, e =>
     let t := next cx false start e
     let k := t.tok.kind
